@@ -28,7 +28,7 @@ ASSUMPTIONS = [
     "for keeping_majority_time_step any most-frequent time step is admissible when counts tie",
     "cases whose largest centre frequency is within 1e-9 (relative) of the deciding Nyquist frequency are not judged for the error clause",
 ]
-NOT_REACHED = ["lists longer than 12", "diffuse_field / psd (one pooled curve; see C17)"]
+NOT_REACHED = ["lists longer than 530 (and between 13 and 269)", "diffuse_field / psd (one pooled curve; see C17)"]
 BUDGET = {"quick": dict(cases=500, seconds=70, shards=4),
           "thorough": dict(cases=40000, seconds=600, shards=16)}
 REQUIRED = ["mon:row-equals-single-run", "mon:row-count-and-order", "mon:frequency-equals-fcs",
@@ -108,9 +108,10 @@ def process_list(ctx, items, cfg):
 
 def fam_list(ctx, rng):
     k = int(rng.choice([1, 2, 2, 3, 3, 4, 5, 6, 8, 12]))
+    k, many = gen.maybe_large(rng, ctx, k, [270, 300, 530], p_quick=0.03, p_thorough=0.02)     # hours of windows in one call
     arrangement = ARR[int(rng.integers(0, len(ARR)))]
     dts = gen_dts(rng, k, arrangement)
-    lengths = [int(rng.choice([200, 500, 1000, 2048, 3001, 6000])) for _ in range(k)]
+    lengths = [int(rng.choice([200, 500] if many else [200, 500, 1000, 2048, 3001, 6000])) for _ in range(k)]
     items = []
     for i in range(k):
         a = gen.recording_arrays(rng, lengths[i], None, amp=float(10 ** rng.uniform(-2, 2)))
@@ -195,7 +196,11 @@ def fam_list(ctx, rng):
     matched = None
     for ko in cands:
         good = True
-        for j, i in enumerate(ko):
+        # (long lists: the first and last rows and a random sample of the others are compared with their single runs)
+        rows = range(len(ko)) if len(ko) <= 40 else sorted({0, 1, len(ko) - 2, len(ko) - 1, 255, 256, 257} & set(range(len(ko))) |
+                                                        set(int(v) for v in rng.choice(len(ko), size=10, replace=False)))
+        for j in rows:
+            i = ko[j]
             s1 = single(i)
             if s1 is None:
                 good = False
@@ -209,13 +214,13 @@ def fam_list(ctx, rng):
     if matched is None:
         ko = cands[0]
         worst = []
-        for j, i in enumerate(ko):
+        for j, i in list(enumerate(ko))[:40]:
             s1 = single(i)
             if s1 is not None:
                 worst.append(max(maxrel(curves[a][j], s1[a][0]) for a in range(len(curves))))
         # which recording does each row actually match? (unique content makes this unambiguous)
         owner = []
-        for j in range(nrows):
+        for j in range(min(nrows, 0 if many else 40)):
             o = [i for i in range(k) if single(i) is not None and close(curves[0][j], single(i)[0][0], rtol=1e-12)]
             owner.append(o)
         ctx.check(False, "row-equals-single-run", "a row differs from the curve of its recording processed alone",
@@ -224,7 +229,7 @@ def fam_list(ctx, rng):
         ctx.check(True, "row-equals-single-run")
     nontriv = k >= 2 and len(set(dts)) >= 2
     # -- permutations / sub-lists on the real code ---------------------------------------------
-    if k >= 2 and matched is not None:
+    if k >= 2 and matched is not None and not many:
         if k <= 4 and rng.random() < 0.5:
             perms = [p for p in itertools.permutations(range(k)) if list(p) != list(range(k))][:6]
         else:
